@@ -6,6 +6,7 @@ import (
 	"fmt"
 	"os"
 	"path/filepath"
+	"runtime/pprof"
 	"sort"
 	"strings"
 	"time"
@@ -54,7 +55,13 @@ func cmdExec(args []string) {
 	rw := fs.Bool("check-rewrites", false, "validate simplifier rewrites with the solver")
 	maxp := fs.Int("maxpaths", 0, "path limit")
 	norw := fs.Bool("no-rewrite", false, "disable structural rewriting (constant folding only): every identity goes to the solver")
+	prof := fs.String("cpuprofile", "", "write CPU profile")
 	fs.Parse(args)
+	if *prof != "" {
+		f, _ := os.Create(*prof)
+		pprof.StartCPUProfile(f)
+		defer pprof.StopCPUProfile()
+	}
 	if *norw {
 		term.Rewrite = false
 	}
@@ -74,6 +81,7 @@ func cmdExec(args []string) {
 		os.Exit(2)
 	}
 	defer e.Close()
+	e.Stats.ForkSites = map[string]int{}
 	t1 := time.Now()
 	if err := e.InitAll(l); err != nil {
 		fmt.Fprintln(os.Stderr, "init:", err)
@@ -97,6 +105,7 @@ func cmdExec(args []string) {
 		"inconclusive": e.Stats.Inconclusive, "incon_reasons": e.Stats.InconReasons, "forks": e.Stats.Forks,
 		"assert_ids": e.Stats.AssertIDs, "solver": e.S.Stats, "nfuncs": len(e.Stats.Funcs), "rewrite_checks": e.Stats.RewriteChecks,
 	}
+	out["fork_sites"] = e.Stats.ForkSites
 	var vs []*interp.Violation
 	for _, k := range e.VOrder {
 		vs = append(vs, e.Viol[k])
@@ -124,6 +133,9 @@ var checks = map[string]struct {
 	"C07": {drivers.PrepareC07, "model_checking"},
 	"C08": {drivers.PrepareC08, "model_checking"},
 	"C09": {drivers.PrepareC09, "model_checking"},
+	"C11": {drivers.PrepareC11, "model_checking"},
+	"C16": {drivers.PrepareC16, "model_checking"},
+	"C17": {drivers.PrepareC17, "model_checking"},
 	"C18": {drivers.PrepareC18, "model_checking"},
 	"C20": {drivers.PrepareC20, "model_checking"},
 }
